@@ -25,6 +25,8 @@ violation leaves an association that reports itself connected but can never make
   C02-REINIT the cumulative TSN is only (re)initialised from INIT / INIT-ACK under an association-state guard (a duplicated
             handshake datagram must not rewind the acknowledgements)
   C02-ABANDON (rules C06-WHOLE / RECV / ITER) abandonment and FORWARD-TSN handling leave every other message alone
+  C02-HANDSHAKE INIT, COOKIE-ECHO and HEARTBEAT are answered whatever the association state (a lost answer is recovered by the peer's
+            retransmission of the request)
   C02-DELIVER (rule C01-REASM) for every arrival order of interleaved messages on two streams nothing complete stays queued
 Does not decide: delivery within bounded time, absence of stalls (abandoned fragments of partially reliable messages are
 outside these rules, see C06).
@@ -499,3 +501,37 @@ def run(rep: Report, prog: Program, tier: str) -> None:
                                 construct="unguarded receive-state reset"))
     import_rules(rep, prog, tier, PROP, "C02-ABANDON", "C06", ["C06-WHOLE", "C06-RECV", "C06-ITER"],
                  "abandoning a partially reliable message never abandons, loses or blocks chunks of other messages (rules C06-WHOLE / C06-RECV / C06-ITER)", 100)
+
+    # ================================================================ C02-HANDSHAKE
+    # handshake requests are retransmitted when their answer is lost: they must be answered whatever state this side is already in
+    rep.rule("C02-HANDSHAKE", "INIT, COOKIE-ECHO and HEARTBEAT are answered in every association state", min_instances=3)
+    rc2 = meth("_receive_chunk")
+    pairs = (("InitChunk", "init_ack", "InitAckChunk"), ("CookieEchoChunk", "cookie_ack", "CookieAckChunk"), ("HeartbeatChunk", "heartbeat_ack", "HeartbeatAckChunk"))
+    branches = [n for n in ast.walk(rc2.node) if isinstance(n, ast.If)]
+    for req, var, resp in pairs:
+        br = [n for n in branches if f"isinstance(chunk, {req})" in unparse(n.test)]
+        if len(br) != 1:
+            raise AnalysisError(f"_receive_chunk: branch for {req} not found")
+        b = br[0]
+        problems = []
+        if "_association_state" in unparse(b.test):
+            problems.append(f"the {req} branch is only taken in some association states ({unparse(b.test)[:90]})")
+        sends = [x for s_ in b.body for x in ast.walk(s_) if isinstance(x, ast.Await) and isinstance(x.value, ast.Call) and unparse(x.value.func) == "self._send_chunk"
+                 and x.value.args and unparse(x.value.args[0]) == var]
+        top = [s_ for s_ in b.body if isinstance(s_, ast.Expr) and any(x is s_.value for x in sends)]
+        builds = [x for s_ in b.body for x in ast.walk(s_) if isinstance(x, ast.Assign) and unparse(x.targets[0]) == var and isinstance(x.value, ast.Call) and unparse(x.value.func) == resp]
+        if not builds or not top:
+            # the response must be sent at the top level of the branch; the only accepted early exits are validation failures of the request itself
+            problems.append(f"the {resp} is not sent unconditionally at the end of the branch")
+        pm2 = parents_of(b)
+        for x in sends:
+            cur: Any = x
+            while id(cur) in pm2 and pm2[id(cur)] is not b:
+                cur = pm2[id(cur)]
+                if isinstance(cur, ast.If) and "_association_state" in unparse(cur.test):
+                    problems.append(f"the {resp} is only sent under `{unparse(cur.test)[:70]}`")
+        if problems:
+            rep.fail(mk_finding(prog, PROP, "C02-HANDSHAKE", rc2, b, f"{'; '.join(problems)}: when the answer to a {req} is lost the peer retransmits the request, gets nothing back and never "
+                                f"finishes the handshake while this side reports itself connected", construct=f"{req} answered in every state"))
+        else:
+            rep.ok("C02-HANDSHAKE", f"_receive_chunk: {req} -> {resp} whatever the association state", sample=unparse(b.test)[:80])
